@@ -324,12 +324,12 @@ fn single_all(cx: &mut Ctx, n: usize, items: Option<&[u8]>, f: &Tab, e: u8, zero
     cx.j(&mk(Ck::NonzeroInverse, e, zero), fam);
 }
 
-/// Carriers of size 4..6: well-known structures, renamed by a random permutation, with 0..2 random cell changes and
+/// Carriers of size 4, 5, 6 and 8: well-known structures, renamed by a random permutation, with 0..2 random cell changes and
 /// occasionally perturbed parameters; plus plain random tables.
 pub fn fam_large(cx: &mut Ctx, rng: &mut Rng) {
     let iters = cx.args.budget(40_000, 800_000, 30);
     for it in 0..iters {
-        let n = 4 + rng.below(3);
+        let n = [4, 5, 6, 8][rng.below(4)];
         let p = rand_perm(rng, n);
         // ---- one operation
         let fam = "large-single-op";
